@@ -15,7 +15,10 @@ def streams(ctx, res):
         ctx.setdefault("failing_inputs", []).append({"kind": "implementation-differs-from-verified-model", **md})
     return {"proved": "reads_in_bounds (+ over-read witness for bufLen < wp), writes_exact, terminates, consumption_disjoint of the getNoise loop model, for all rlen, bufLen >= wp, tables of the right shape, buffers",
             "observed_not_proved": "real heap accesses of constructor / getNoise / destructor: ASan + UBSan + LSan build, every call preceded by a PARAMS line (a report = concrete failing input)",
-            "sanitizers": "address,undefined (+leak at exit)"}
+            "lifecycles": "glc lines: residue of the real allocator per lifecycle (blocks, bytes) vs Model/GaussLife.lean (per-thread MPFR caches released by the constructor); "
+                          "proved: lifecycle_releases_all (every event list, any threads / order / number of samplers), release_in_destructor_witness; "
+                          "a non-zero residue is a SPECFAIL carrying the parameters of every sampler and the whole event list; LSan's exit report is attributed to the first such lifecycle",
+            "sanitizers": "address,undefined (+leak at exit) + per-lifecycle allocator accounting through __sanitizer_install_malloc_and_free_hooks"}
 
 
 def search(ctx, res, problems):
@@ -28,11 +31,19 @@ PROP = {
              "and 4096, stream kinds random / all-zero / all-ones / barrier copies / barrier with last word +-1 / barrier on a long prefix / words of flagged cells; "
              "both index widths and depths; per line: observed buffer length (must be >= wp), number and size of fastrandombytes requests, all outputs compared with the "
              "loop model and with a table-free reference decoder (inverse CDF on consecutive pieces), model trace re-checked (in bounds, consecutive, disjoint); "
-             "constructor/getNoise/destructor over the parameter grid (glife); everything under ASan+UBSan+LSan"),
+             "constructor/getNoise/destructor on one thread over the parameter grid with m = 1, 2^20 and sample budgets that are not powers of two, lambda not a multiple of 8, "
+             "centres that are not dyadic, all three constructors (glife); "
+             "lifecycles over threads (glc): one sampler with every assignment of constructor / getNoise / destructor to {main, a fresh std::thread that ends right after, worker 1, worker 2} "
+             "(a constructing worker ending before or after the destruction); 2..4 samplers of mixed index width / depth / parameters alive at once, destroyed in FIFO / LIFO / random order on the "
+             "constructing thread, main, a fresh thread or another worker; random interleavings of construct / getNoise / destroy over main, fresh threads and three workers with workers "
+             "ending at random points and sampler slots reused; per lifecycle the allocator accounting (ASan malloc/free hooks: every block obtained inside constructor / getNoise / destructor "
+             "on any thread, removed when freed on any thread) must end at 0 blocks / 0 bytes and is compared with the allocation model's residue; everything under ASan+UBSan+LSan"),
     "trusted_base": props.COMMON_TB + [
         "AddressSanitizer/UBSan/LeakSanitizer of g++ 12 detect the out-of-bounds accesses, leaks and UB they are documented to detect (MPFR/GMP are not instrumented)",
         "the float product that sizes the buffer is abstracted: bufLen is read off the request the scripted fastrandombytes receives and must be >= wp",
         "scripted nfl::fastrandombytes replaces the PRNG at link time",
+        "MPFR's caches are per thread and mpfr_free_cache() releases those of the calling thread only (contract of Model/GaussLife.lean; MPFR built with TLS); "
+        "ASan's malloc/free hooks see every allocation of the process, also those made by the uninstrumented MPFR/GMP",
     ],
     "assumptions": ["tables have the shape buildLookupTables gives them (shapeOK, checked on the real tables)", "depth <= wp (lambda >= 32 gives wp >= 5 for the 8-bit and >= 3 for the 16-bit index)",
                     "16-bit-index depth-2 tables only for sigma <= 10 (2 MB per flagged first-level cell)"],
